@@ -183,3 +183,118 @@ def parse_script_text(text):
         elif line.strip():
             out.append((mod, line, '?', '?'))
     return out
+
+
+# ---------------------------------------------------------------------------------------------
+# Dependent-validity schemas: an expression that is only well-formed BECAUSE of a property of
+# another declaration (an exclusive constraint makes a filter a singleton; required-ness; the
+# cardinality of a pointer declared later).  Loading such SDL needs the declaration that provides
+# the property to be applied BEFORE the expression is compiled (edb/edgeql/declarative.py orders
+# the commands); DESCRIBE prints declarations alphabetically, so the owner of the expression is
+# named to sort before (`A…`) or after (`Z…`) the type it leans on (`M…`).  Every pair has its own
+# referenced type, so that no other declaration (functions print first in a module) pulls the
+# constraint in earlier.
+
+# kind -> (declarations of the referenced type, singleton expression over it)
+DEP_REFS = {
+    'prop-exclusive': ("type {R} {{ required property name: str {{ constraint exclusive; }}; property tag: str; }}",
+                       "(select {QR} filter .name = 'x')"),
+    'object-exclusive-on': ("type {R} {{ required property name: str; constraint exclusive on (.name); "
+                            "property tag: str; }}", "(select {QR} filter .name = 'x')"),
+    'tuple-exclusive': ("type {R} {{ required property a: str; required property b: int64; "
+                        "constraint exclusive on ((.a, .b)); property tag: str; }}",
+                        "(select {QR} filter .a = 'x' and .b = 1)"),
+    'link-exclusive': ("type {T}; type {R} {{ required link owner: {T} {{ constraint exclusive; }}; "
+                       "property tag: str; }}", "(select {QR} filter .owner = (select {QT} limit 1))"),
+    'inherited-exclusive': ("abstract type {N} {{ required property name: str {{ constraint exclusive; }}; }} "
+                            "type {R} extending {N} {{ property tag: str; }}", "(select {QR} filter .name = 'x')"),
+    'delegated-exclusive': ("abstract type {N} {{ required property name: str {{ delegated constraint exclusive; }}; }} "
+                            "type {R} extending {N} {{ property tag: str; }}", "(select {QR} filter .name = 'x')"),
+    'user-scalar-exclusive': ("scalar type {C} extending str; type {R} {{ required property name: {C} "
+                              "{{ constraint exclusive; }}; property tag: str; }}",
+                              "(select {QR} filter .name = <{QC}>'x')"),
+}
+# position -> declarations of the owner; E = the singleton expression
+DEP_POS = {
+    'link-default': "type {O} {{ property tag: str; link dflt: {QR} {{ default := E; }}; }}",
+    'property-default': "type {O} {{ property tag: str; property d: str {{ default := (E).tag; }}; }}",
+    'rewrite': "type {O} {{ property tag: str; property r: str {{ rewrite insert using ((E).tag); }}; }}",
+    'computed-single-link': "type {O} {{ property tag: str; single link c := E; }}",
+    'computed-link-inferred': "type {O} {{ property tag: str; link c := E; }}",
+    'computed-single-property': "type {O} {{ property tag: str; single property cp := (E).tag; }}",
+    'policy': "type {O} {{ property tag: str; access policy p allow all using (((E).tag ?= .tag)); }}",
+    'trigger-when': "type {O} {{ property tag: str; trigger t after insert for each "
+                    "when (((E).tag ?= __new__.tag)) do (select 1); }}",
+    'trigger-body': "type {O} {{ property tag: str; trigger t after insert for each do "
+                    "(select assert((E).tag ?!= __new__.tag)); }}",
+    'function-object': "type {O}; function {F}() -> optional {QR} using (E);",
+    'function-scalar': "type {O}; function {F}() -> optional str using ((E).tag);",
+    'global-single': "type {O}; single global {G} := E;",
+    'global-inferred': "type {O}; global {G} := (E).tag;",
+    'alias': "type {O}; alias {A} := E;",
+    'required-computed': "type {O} {{ property tag: str; required single link c := assert_exists(E); }}",
+}
+# expressions of a type that lean on its OWN pointers declared later in the text
+SELF_DEP = ("type {O} {{ constraint exclusive on (.a) except (.flag); index on ((.a, .b)); "
+            "constraint expression on (.b > 0 or .flag); required property rq := .a; "
+            "single property both := .a ++ <str>.b; "
+            "required property a: str; required property b: int64; required property flag: bool; }}")
+
+
+# On the UNCHANGED tree the ordering pass does not put an OBJECT-level constraint
+# (`constraint exclusive on (…)`) before a default or a function body that leans on it (only
+# constraints declared ON the pointer are pulled in, by a name-prefix scan): kept apart as the
+# corpus witness `dep-object-constraint`, excluded from the generated schemas.
+OBJECT_LEVEL = ('object-exclusive-on', 'tuple-exclusive')
+
+
+def dep_known_bad(kind, pos, before):
+    if kind not in OBJECT_LEVEL:
+        return False
+    return pos.startswith('function-') or (pos in ('link-default', 'property-default') and before)
+
+
+def dep_known_bad_schema():
+    """two pairs of the known-bad class (owner printed before the referenced type / function)"""
+    names0 = dict(R='M0Ref', T='M0Tgt', N='M0Named', C='M0Code', O='A0Own', F='fn0', G='gl0', A='Al0',
+                  QR='M0Ref', QT='M0Tgt', QN='M0Named', QC='M0Code')
+    names1 = {k: v.replace('0', '1') for k, v in names0.items()}
+    r0, e0 = DEP_REFS['object-exclusive-on']
+    r1, e1 = DEP_REFS['tuple-exclusive']
+    decls = [r0.format(**names0), r1.format(**names1),
+             DEP_POS['link-default'].replace('E', e0.format(**names0)).format(**names0),
+             DEP_POS['function-object'].replace('E', e1.format(**names1)).format(**names1)]
+    return 'module default {\n  ' + '\n  '.join(decls) + '\n}'
+
+
+def dep_schema(rng, positions=None, ref_kinds=None, allow_known_bad=False):
+    """-> (SDL text, [(position, ref kind, 'before'|'after', owner module, ref module)])"""
+    positions = list(positions or DEP_POS)
+    kinds = list(ref_kinds or DEP_REFS)
+    decls = {m: [] for m in MODULES}
+    owners = {m: [] for m in MODULES}
+    info = []
+    flip = rng.randint(0, 1)
+    for k, pos in enumerate(positions):
+        kind = rng.choice(kinds)
+        before = (k + flip) % 2 == 0
+        if not allow_known_bad and dep_known_bad(kind, pos, before):
+            kind = rng.choice([x for x in kinds if x not in OBJECT_LEVEL] or ['prop-exclusive'])
+        om = rng.choice(MODULES)
+        rm = om if rng.random() < 0.6 else rng.choice(MODULES)
+        names = {'R': f'M{k}Ref', 'T': f'M{k}Tgt', 'N': f'M{k}Named', 'C': f'M{k}Code',
+                 'O': f'{"A" if before else "Z"}{k}Own', 'F': f'fn{k}', 'G': f'gl{k}', 'A': f'Al{k}'}
+        q = {('Q' + key): (val if rm == om and rng.random() < 0.5 else f'{rm}::{val}')
+             for key, val in names.items() if key in 'RTNC'}
+        rdecl, expr = DEP_REFS[kind]
+        # inside the referenced module its own names may stay unqualified
+        decls[rm].append(rdecl.format(**names, **{k2: v2.split('::')[-1] for k2, v2 in q.items()}))
+        e = expr.format(**names, **q)
+        owners[om].append(DEP_POS[pos].replace('E', e).format(**names, **q))
+        info.append((pos, kind, 'before' if before else 'after', om, rm))
+    owners['default'].append(SELF_DEP.format(O='ASelfDep'))
+    owners['other'].append(SELF_DEP.format(O='ZSelfDep'))
+    # original text: referenced declarations first (so that loading it never depends on the ordering
+    # pass being right); DESCRIBE re-orders alphabetically
+    text = '\n'.join(f'module {m} {{\n  ' + '\n  '.join(decls[m] + owners[m]) + '\n}' for m in MODULES)
+    return text, info
